@@ -152,7 +152,8 @@ func init() {
 		if err != nil {
 			return "", err
 		}
-		t = &c17tr{p: p, idents: map[string]string{"cc.currentRequestCountLocked()": "count", "cc.maxConcurrentStreams": "maxConcurrentStreams"}}
+		t = &c17tr{p: p, idents: map[string]string{"cc.currentRequestCountLocked()": "(count streams reserved pendingResets)", "cc.maxConcurrentStreams": "maxConcurrentStreams",
+			"len(cc.streams)": "streams", "cc.streamsReserved": "reserved", "cc.pendingResets": "pendingResets"}}
 		var found []string
 		ast.Inspect(fd.Body, func(n ast.Node) bool {
 			if is, ok := n.(*ast.IfStmt); ok && is.Init == nil && is.Else == nil && c17returnsNil(is.Body) {
@@ -170,7 +171,7 @@ func init() {
 		if len(found) != 1 {
 			return "", fmt.Errorf("c17: awaitOpenSlotForStreamLocked: %d `return nil` sites, want 1", len(found))
 		}
-		b.WriteString("\n/-- `awaitOpenSlotForStreamLocked`: the condition under which the request proceeds -/\ndef slotFree (count maxConcurrentStreams : Nat) : Bool := " + found[0] + "\n")
+		b.WriteString("\n/-- `awaitOpenSlotForStreamLocked`: the condition under which the request proceeds -/\ndef slotFree (streams reserved pendingResets maxConcurrentStreams : Nat) : Bool := " + found[0] + "\n")
 
 		// idleStateLocked
 		fd, err = p.Func("ClientConn.idleStateLocked")
@@ -197,7 +198,7 @@ func init() {
 		if len(found) != 1 {
 			return "", fmt.Errorf("c17: idleStateLocked: %d non-strict maxConcurrentOkay assignments, want 1", len(found))
 		}
-		b.WriteString("\n/-- `idleStateLocked`: maxConcurrentOkay without StrictMaxConcurrentStreams -/\ndef poolOkay (count maxConcurrentStreams : Nat) : Bool := " + found[0] + "\n")
+		b.WriteString("\n/-- `idleStateLocked`: maxConcurrentOkay without StrictMaxConcurrentStreams -/\ndef poolOkay (streams reserved pendingResets maxConcurrentStreams : Nat) : Bool := " + found[0] + "\n")
 
 		// setGoAway
 		fd, err = p.Func("ClientConn.setGoAway")
